@@ -9,6 +9,7 @@
 
 import collections
 import itertools as it
+import math
 import operator
 import re
 import threading
@@ -949,10 +950,11 @@ def uniqueify(seq):
 
 def is_number(value):
     try:
-        float(value)
-        return True
+        number = float(value)
     except (ValueError, TypeError):
         return False
+    # the texts 'inf', 'nan', 'Infinity' ... are not numbers to Excel
+    return not isinstance(value, str) or math.isfinite(number)
 
 
 def coerce_to_number(value, convert_all=False):
@@ -979,9 +981,10 @@ def coerce_to_number(value, convert_all=False):
         pass
 
     try:
-        return float(value)
+        number = float(value)
     except (ValueError, TypeError):
         return value
+    return number if math.isfinite(number) else value
 
 
 def number_to_text(value):
